@@ -333,7 +333,7 @@ def rule_injectivity(ck, F, X):
                 if kind == "fn" and sk_kind == "impl" or sk_kind == "mod":
                     have |= _tokens(sname, star_iters)
         missing = [k for k in range(len(star_iters)) if k not in have]
-        fnshort = ev.fn.rsplit("::", 1)[-1]
+        fnshort = ""    # the template is identified by kind and name: which function holds the line is incidental
         desc = f"{kind}:{''.join(p[1] for p in ev.parts if p[0] == 'lit').strip()[:40]}:{og.nf_str(name)[:60]}"
         if missing:
             ck.violation("R6", f"{kind}:{_name_key(name)}", ev.site,
